@@ -150,7 +150,10 @@ def handle : List String → Option String
     let spec := evalMetric oracles c d q
     -- the label says whether `Qryn.C08.plan_metric_correct` applies to this very case (same predicates as the theorem)
     let cls := s!"{planClass oracles c d q} {stageCount c q}"
-    if plan == spec then some s!"ok {plan.length} {cls}"
+    -- unwrapped range aggregations: the theorem's right-hand side is the direct reading over the entries in timestamp order
+    let specTs := evalMetric oracles c (sortedDb c.toCtx d) q
+    if supportedU q && plan != specTs then some s!"diff {showTable plan} {showTable specTs} theorem-rhs-differs:{shapeName q} {stageCount c q}"
+    else if plan == spec then some s!"ok {plan.length} {cls}"
     else some s!"diff {showTable plan} {showTable spec} {cls}"
   | "c08post" :: fromNs :: toNs :: step :: d :: es :: [] => do
     let es ← list? mentry? es
